@@ -42,6 +42,128 @@ static Pos attackPos(Rng& r) {
     }
 }
 
+
+// ---- C11 case generation -------------------------------------------------------------------
+using posgen::findCycle; using posgen::reversible;
+
+static void emitCase(const Pos& start, const std::vector<Mv>& moves, const Mv& m, const char* expect, const std::string& tag) {
+    std::cout << toFEN(start) << " |";
+    for (auto& x : moves) std::cout << ' ' << mvStr(x);
+    std::cout << " | " << mvStr(m) << " | " << expect << " | " << tag << "\n";
+}
+
+// count FIDE occurrences of the position after (moves + m) in start+moves history
+static int occurrencesAfter(const Pos& start, const std::vector<Mv>& moves, const Mv& m) {
+    Pos p = start; std::vector<std::string> keys; keys.push_back(repKey(p));
+    for (auto& x : moves) { p = make(p, x); keys.push_back(repKey(p)); }
+    std::string k = repKey(make(p, m));
+    int n = 1; for (auto& s : keys) if (s == k) n++;
+    return n;
+}
+
+static bool genRepCase(Rng& r, const std::vector<Pos>& tricky) {
+    Pos start = r.chance(60) ? tricky[0] : tricky[r.below((int)tricky.size())];
+    start.hmc = 0;
+    posgen::Game g = posgen::randomGame(r, start, r.range(0, 60), r.chance(50) ? posgen::QUIET : posgen::TACTICAL);
+    std::vector<Mv> moves = g.moves;
+    Pos x = g.pos.back();
+    { std::vector<Mv> l; genLegal(x, l); if (l.empty()) return false; }
+    Mv c[4];
+    if (!findCycle(r, x, c)) return false;
+    int kind = r.below(10);
+    std::string tag;
+    if (kind < 6) { // third occurrence, optionally with an irreversible move well before
+        for (int rep = 0; rep < 2; rep++) for (int i = 0; i < 4; i++) if (!(rep == 1 && i == 3)) moves.push_back(c[i]);
+        tag = "rep3";
+    } else if (kind < 8) { // second occurrence only (control)
+        for (int i = 0; i < 3; i++) moves.push_back(c[i]);
+        tag = "rep2";
+    } else { // one cycle, an irreversible move, then more cycles: occurrences before the irreversible move must not count
+        for (int i = 0; i < 4; i++) moves.push_back(c[i]);
+        Pos p = x; std::vector<Mv> l; genLegal(p, l);
+        std::vector<Mv> irr; for (auto& m : l) if (!reversible(p, m)) irr.push_back(m);
+        if (irr.empty()) return false;
+        Mv im = irr[r.below((int)irr.size())];
+        moves.push_back(im);
+        Pos y = make(p, im);
+        { std::vector<Mv> l2; genLegal(y, l2); if (l2.empty()) return false; }
+        Mv d[4];
+        if (!findCycle(r, y, d)) return false;
+        int reps = r.chance(50) ? 2 : 1;
+        for (int rep = 0; rep < reps; rep++) for (int i = 0; i < 4; i++) if (!(rep == reps - 1 && i == 3)) moves.push_back(d[i]);
+        c[3] = d[3];
+        tag = reps == 2 ? "rep3-after-irreversible" : "rep2-after-irreversible";
+    }
+    int occ = occurrencesAfter(start, moves, c[3]);
+    // the candidate must not mate/stalemate-conflict: if it happens to mate, expectation is mate
+    Pos p = start; for (auto& mv : moves) p = make(p, mv);
+    Pos after = make(p, c[3]);
+    const char* expect = isMate(after) ? "mate1" : (occ >= 3 ? "draw" : "control");
+    emitCase(start, moves, c[3], expect, tag + " occ=" + std::to_string(occ) + " len=" + std::to_string(moves.size()));
+    return true;
+}
+
+static bool genEpRepCase(Rng& r) {
+    Pos p; Mv push;
+    if (!posgen::epPinnedPush(r, p, push)) return false;
+    Pos x = make(p, push);
+    std::vector<Mv> l; genLegal(x, l); if (l.empty()) return false;
+    Mv c[4];
+    if (!findCycle(r, x, c)) return false;
+    std::vector<Mv> moves; moves.push_back(push);
+    for (int rep = 0; rep < 2; rep++) for (int i = 0; i < 4; i++) if (!(rep == 1 && i == 3)) moves.push_back(c[i]);
+    int occ = occurrencesAfter(p, moves, c[3]);
+    Pos q = p; for (auto& mv : moves) q = make(q, mv);
+    if (isMate(make(q, c[3]))) return false;
+    emitCase(p, moves, c[3], occ >= 3 ? "draw" : "control", "rep3-first-occurrence-has-uncapturable-ep occ=" + std::to_string(occ));
+    return true;
+}
+
+static bool genFiftyCase(Rng& r, const std::vector<Pos>& tricky) {
+    int kind = r.below(10);
+    if (kind < 3) {
+        // mate in one delivered by the move that completes the 100th reversible ply: still mate
+        Pos p; std::vector<Mv> rev;
+        for (int t = 0; t < 400 && rev.empty(); t++) {
+            p = attackPos(r);
+            std::vector<Mv> m1; mateIn1Moves(p, m1);
+            for (auto& m : m1) if (reversible(p, m)) rev.push_back(m);
+        }
+        if (rev.empty()) return false;
+        p.hmc = r.chance(70) ? 99 : r.range(100, 110);
+        p.ep = -1;
+        emitCase(p, {}, rev[r.below((int)rev.size())], "mate1", "fifty-mate hmc=" + std::to_string(p.hmc));
+        return true;
+    }
+    Pos start = tricky[r.below((int)tricky.size())];
+    posgen::Game g = posgen::randomGame(r, start, r.range(0, 50), posgen::QUIET);
+    Pos x = g.pos.back();
+    x.ep = -1;
+    // clock given by FEN, then k reversible moves played
+    int k = r.range(0, 8);
+    int target = kind < 7 ? 99 : (kind < 9 ? r.range(100, 109) : r.range(90, 98));   // hmc before the candidate
+    x.hmc = target - k; if (x.hmc < 0) return false;
+    x.fullMove = 60;
+    Pos p = x; std::vector<Mv> moves;
+    for (int i = 0; i < k; i++) {
+        std::vector<Mv> l; genLegal(p, l);
+        std::vector<Mv> rv; for (auto& m : l) if (reversible(p, m)) rv.push_back(m);
+        if (rv.empty()) return false;
+        Mv m = rv[r.below((int)rv.size())]; moves.push_back(m); p = make(p, m);
+    }
+    std::vector<Mv> l; genLegal(p, l); if (l.empty()) return false;
+    Mv m = l[r.below((int)l.size())];
+    Pos after = make(p, m);
+    const char* expect;
+    std::string tag = "fifty hmc_before=" + std::to_string(p.hmc) + (reversible(p, m) ? " reversible" : " irreversible");
+    if (isMate(after)) expect = "mate1";
+    else if (reversible(p, m) && after.hmc >= 100) expect = "draw";
+    else if (occurrencesAfter(x, moves, m) >= 3) expect = "draw";
+    else expect = "control";
+    emitCase(x, moves, m, expect, tag);
+    return true;
+}
+
 int main(int argc, char** argv) {
     if (argc < 4) return 2;
     std::string mode = argv[1];
@@ -106,6 +228,13 @@ int main(int argc, char** argv) {
                 Pos t = c; for (int s = 0; s < 64; s++) if (s != m.to && t.b[s] && isWhite(t.b[s]) == p.wtm && kindOf(t.b[s]) != K_K) t.b[s] = EMPTY;
                 if (!attacked(t, c.kingSq(c.wtm), p.wtm)) disc = true; }
             std::cout << " |" << (promo ? " promo" : "") << (ep ? " ep" : "") << (castle ? " castle" : "") << (dbl ? " double" : "") << (disc ? " discovered" : "") << "\n"; done++;
+        }
+    } else if (mode == "c11") {
+        long done = 0;
+        while (done < n) {
+            int k = r.below(20);
+            bool ok = k < 9 ? genRepCase(r, tricky) : (k < 12 ? genEpRepCase(r) : genFiftyCase(r, tricky));
+            if (ok) done++;
         }
     } else if (mode == "few") {
         int maxMen = argc > 4 ? atoi(argv[4]) : 4;
